@@ -1,11 +1,11 @@
-\* C19 thorough: 3 shards, plain object + lock + EC part + tombstone of the EC part, put faults, degraded sources
+\* C19 thorough: 3 shards, object + lock + tombstone, put faults
 SPECIFICATION Spec
 CONSTANTS
   NS = 3
   MaxEpoch = 1
   BugH6 = TRUE
-  CatSet = "c19"
-  Ops = {"Put", "Bcast", "SetMode", "FailPut", "Evacuate"}
+  CatSet = "c19t"
+  Ops = {"Put", "Bcast", "SetMode", "Evacuate"}
   Modes = {"rw", "ro"}
   HealthyLock = FALSE
   MaxInFlight = 1
